@@ -136,6 +136,19 @@ MirrorAlways ==
 NoDangling ==
     \A f \in Files : st.ix.fdefs[f] = { n \in HNames : \E j \in 1..Len(st.ix.defs[n]) : st.ix.defs[n][j].file = f }
 
+\* Refinement: the SET abstraction of the four shared maps moves by the actions of MirrorInd.tla (whose Mirror / DefKeyed
+\* Apalache proves inductive): every step of a history that is not the multi-analysis `scan` event is one AnalyzeCleanup,
+\* a parse failure, or leaves the abstraction unchanged.  Checked by TLC as an action property on every transition.
+AbsDefs(ix)  == UNION { { <<n, ix.defs[n][j].file>> : j \in 1..Len(ix.defs[n]) } : n \in HNames }
+AbsFdefs(ix) == UNION { { <<f, n>> : n \in ix.fdefs[f] } : f \in Files }
+AbsUses(ix)  == UNION { { <<f, ix.usages[f][j].name>> : j \in 1..Len(ix.usages[f]) } : f \in Files }
+AbsUbf(ix)   == UNION { { <<n, ix.ubf[n][j].file>> : j \in 1..Len(ix.ubf[n]) } : n \in HNames }
+MI == INSTANCE MirrorInd WITH Files <- Files, Names <- HNames, defs <- AbsDefs(st.ix), fdefs <- AbsFdefs(st.ix),
+                              uses <- AbsUses(st.ix), ubf <- AbsUbf(st.ix)
+RefinesMirrorInd ==
+    [][ (hist' # hist /\ hist'[Len(hist')].t # "scan") => (MI!Next \/ UNCHANGED MI!vars) ]_vars
+AbsInv == MI!Mirror /\ MI!DefKeyed
+
 \* C07 (repaired design): the answer of the LAST event, if it is a query, equals the answer of the
 \* same query after only the edits of the history (no earlier queries, closes, evictions), all
 \* under the repaired design D = {}
